@@ -161,6 +161,7 @@ def run(ctx):
     # ---- a checkpoint holds a snapshot of the history, not the live lists
     from ..report import reuse
     from . import c11
+    reuse(ctx, c11.run, ("C11.cut",), "C18cut", "cut-point rule shared with C11: a checkpoint taken before the iteration's last history append restores a history that lacks that entry")
     reuse(ctx, c11.run, ("C11.snapshot",), "C18ckpt", "snapshot rule shared with C11: a resumed run's history starts from what the checkpoint recorded")
 
     # ---- definitions of the appended values
